@@ -10,7 +10,7 @@
      the model, and that the real code reaches the tail on every path is what the harness' "bridge" stream checks.
 
    The index is per node (s.tunnelBridges of that node's SessionManager). *)
-From Coq Require Import List NArith Bool Arith.
+From Coq Require Import List NArith ZArith Bool Arith.
 Import ListNotations.
 From TX Require Import Base.Val.
 From TX Require Export Model.Routing.
@@ -42,3 +42,15 @@ Fixpoint bcompile (ix : bindex) (h : list bop) : list op * bindex :=
 
 (* was the start accepted? *)
 Definition bstart_accepted (ix : bindex) (n : nat) (t : str) : bool := negb (ix n t).
+
+(* variant kept to refute it: startSourceBridge skips the publication when the target client's CONTROL connection is on the
+   starting node ([ctl n client]); where the control connection lives says nothing about where the target's tunnel
+   connection arrives.  The model proper ([bcalls]) registers whatever the placement of connections. *)
+Definition bcalls_skip_local (ctl : nat -> Z -> bool) (ix : bindex) (b : bop) : list op * bindex :=
+  match b with
+  | BStart n r =>
+      if ix n (w_tunnel r) then ([], ix)
+      else if ctl n (w_dst r) then ([], bi_set ix n (w_tunnel r) true)
+      else ([ORegister n r], bi_set ix n (w_tunnel r) true)
+  | _ => bcalls ix b
+  end.
